@@ -19,7 +19,7 @@ import re
 from lib import core
 
 DRIVER = "drv_grid"
-LEAN_TARGETS = ["OmplModel.Props.C13", DRIVER, "drv_discretization", "drv_kpiece", "drv_lbkpiece"]
+LEAN_TARGETS = ["OmplModel.Props.C13", DRIVER, "drv_discretization", "drv_kpiece", "drv_lbkpiece", "drv_gridn"]
 CMPS = ["less", "greater", "div4", "mod16"]
 EVS = ["none", "lo", "hi"]
 FAR = 1 << 30
@@ -1943,6 +1943,210 @@ def judge_lbkpiece(ck, hbin, p, tag, pre=None):
     return True
 
 
+# ================================================================================== engine 5: plain GridN (split protocol)
+GN_DRIVER = "drv_gridn"
+
+
+def gen_gridn(rng, nops):
+    """plain GridN with the split protocol: createCell, then add -- or remove + destroyCell WITHOUT add (a tentative cell
+    given back) --, and removals of present cells; emphasis on abandoned cells next to present ones, repeated."""
+    dim = rng.choice([1, 2, 2, 2, 3])
+    limit = "default" if rng.chance(1, 3) else rng.range(1, 2 * dim + 1)
+    if rng.chance(1, 2):
+        bounds = None
+        hdr_b = "nobounds"
+    else:
+        lo = [rng.range(-2, 0) for _ in range(dim)]
+        up = [lo[i] + (0 if rng.chance(1, 6) else rng.range(1, 3)) for i in range(dim)]
+        bounds = (lo, up)
+        hdr_b = "bounds " + " ".join(map(str, lo + up))
+    lines = ["gridn dim=%d limit=%s %s" % (dim, limit, hdr_b)]
+    present = []
+    cs = lambda x: " ".join(map(str, x))
+
+    def coord():
+        if present and rng.chance(3, 5):
+            x = list(rng.choice(present))
+            x[rng.below(dim)] += rng.choice([-1, 1])
+            return tuple(x)
+        if bounds is not None:
+            return tuple(rng.range(bounds[0][i] - 1, bounds[1][i] + 1) for i in range(dim))
+        return tuple(rng.range(-2, 2) for _ in range(dim))
+    for _ in range(nops):
+        r = rng.below(100)
+        if r < 55:
+            x = coord()
+            lines.append("create %s %d" % (cs(x), rng.below(100)))
+            z = rng.below(100)
+            if z < 55:
+                lines.append("add")
+                if x not in present:
+                    present.append(x)
+            elif z < 95:
+                lines.append("abandon")
+                if rng.chance(1, 3):        # abandon the same coordinate again: the inflation would accumulate
+                    lines += ["create %s 1" % cs(x), "abandon"]
+            # else: leave it pending; the next ops answer `busy`
+        elif r < 80 and present:
+            x = rng.choice(present)
+            lines.append("rm " + cs(x))
+            present.remove(x)
+        elif r < 88:
+            lines.append(rng.choice(["add", "abandon"]))
+        elif r < 95:
+            lines.append("rm " + cs(coord()))
+        else:
+            lines.append(rng.choice(["create 1", "add 3", "rm", "abandon now"]))
+    lines += ["abandon", "add"]
+    return lines
+
+
+def gridn_oracle(script, out, stats=None):
+    """brute-force neighbour count on the implementation's dump: the property itself."""
+    t = script[0].split()
+    dim = int(t[1].split("=")[1])
+    lim = t[2].split("=")[1]
+    limit = 2 * dim if lim == "default" else int(lim)
+    lo = up = None
+    if t[3] == "bounds":
+        v = list(map(int, t[4:]))
+        lo, up = v[:dim], v[dim:]
+    bd = lambda x: 0 if lo is None else sum(1 for i in range(dim) if x[i] == lo[i] or x[i] == up[i])
+    present = {}     # coord -> id
+    pending = None   # (id, coord)
+    nxt = 0
+    isint = lambda z: re.fullmatch(r"[+-]?\d+", z) is not None
+    for i, line in enumerate(script[1:]):
+        if i >= len(out):
+            return (i, "implementation stopped at `%s` (crash or sanitizer report)" % line)
+        o = out[i]
+        tk = line.split()
+        op = tk[0]
+        wf = (op == "create" and len(tk) == dim + 2 and all(isint(z) for z in tk[1:])) or (op in ("add", "abandon") and len(tk) == 1) or \
+             (op == "rm" and len(tk) == dim + 1 and all(isint(z) for z in tk[1:]))
+        if not wf:
+            if o != "bad-op":
+                return (i, "ill-formed line answered %r" % o)
+            continue
+        if o == "bad-op":
+            return (i, "bad-op on a well-formed line")
+        res, _, dump = o.partition(" | ")
+        exp = None
+        if op == "create":
+            x = tuple(map(int, tk[1:1 + dim]))
+            if pending is not None:
+                exp = "busy"
+            elif x in present:
+                exp = "present"
+            else:
+                pending = (nxt, x)
+                exp = "c=%d" % nxt
+                nxt += 1
+        elif op == "add":
+            if pending is None:
+                exp = "nopending"
+            else:
+                present[pending[1]] = pending[0]
+                pending = None
+                exp = "ok"
+        elif op == "abandon":
+            if pending is None:
+                exp = "nopending"
+            else:
+                pending = None
+                exp = "0"
+                if stats is not None:
+                    stats["gn:abandoned"] += 1
+        elif op == "rm":
+            x = tuple(map(int, tk[1:]))
+            if pending is not None:
+                exp = "busy"
+            elif x in present:
+                del present[x]
+                exp = "1"
+            else:
+                exp = "absent"
+        if res != exp:
+            return (i, "`%s` answered %r, expected %r" % (line, res, exp))
+        sec = dump.split(" | ")
+        cells = {}
+        for tok in sec[0].split()[1:]:
+            cid, xs, nb, b, d = tok.split(":")
+            cells[tuple(map(int, xs.split(",")))] = (int(cid), int(nb), b == "1")
+        if {x: c[0] for x, c in cells.items()} != present:
+            return (i, "cells %s, expected the present cells %s" % (sorted(cells), sorted(present)))
+        pd = sec[1].split("=", 1)[1]
+        if (pd == "-") != (pending is None):
+            return (i, "pending cell %r, expected %r" % (pd, pending))
+        pcoord = pending[1] if pending is not None else None
+        for x, (cid, nb, b) in cells.items():
+            real = sum(1 for y in nb_coords(x) if y in present)
+            want = real + bd(x) + (1 if (pcoord is not None and pcoord in nb_coords(x)) else 0)
+            if nb != want or b != (want < limit):
+                return (i, "cell %d at %s reports neighbors=%d border=%d, but it has %d present neighbours, %d boundary sides%s: "
+                           "expected neighbors=%d border=%d (interior limit %d)"
+                        % (cid, x, nb, b, real, bd(x), " and 1 adjacent created-not-yet-added cell" if want != real + bd(x) else "",
+                           want, want < limit, limit))
+        if pending is not None:
+            f = pd.split(":")
+            real = sum(1 for y in nb_coords(pcoord) if y in present)
+            want = real + bd(pcoord)
+            if int(f[2]) != want or (f[3] == "1") != (want < limit):
+                return (i, "created cell at %s reports neighbors=%s border=%s, expected %d / %d" % (pcoord, f[2], f[3], want, want < limit))
+    return None
+
+
+def judge_gridn(ck, hbin, script, tag, pre=None):
+    impl, rc, err, model = pre if pre is not None else ck.run_pair(hbin, GN_DRIVER, script)
+    impl = impl or []
+    ck.traces_validated += 1
+    stats = collections.Counter()
+    fail = gridn_oracle(script, impl, stats)
+    ck.case(("gridn",) + tuple(script), stats["gn:abandoned"] >= 2)
+    ck.count("gn:scripts:" + tag)
+    ck.count("gn:ops", len(script) - 1)
+    for k, v in stats.items():
+        ck.count(k, v)
+    ck.sample({"generator": "gridn:" + tag, "script": script[:8]}, limit=18)
+    if rc != 0 and fail is None:
+        fail = (len(impl), "harness exited with code %s: %s" % (rc, crash_site(err or "")))
+    d = ck.first_diff(impl, model)
+    if fail is not None:
+        sig = ("gridn", re.sub(r"-?\d+", "N", fail[1])[:60])
+        seen = ck.__dict__.setdefault("_c13_sigs", set())
+        if sig in seen:
+            ck.count("failing-scripts:same-kind-as-reported")
+            return None
+        seen.add(sig)
+
+        def still(lines):
+            s_ = [script[0]] + lines
+            o, r_, e_, _m = ck.run_pair(hbin, GN_DRIVER, s_)
+            return gridn_oracle(s_, o or []) is not None or r_ != 0
+        small = [script[0]] + core.ddmin(script[1:], still)
+        o, r_, e_, m = ck.run_pair(hbin, GN_DRIVER, small)
+        f = gridn_oracle(small, o or [])
+        what = f[1] if f else fail[1]
+        ck.report({"engine": "gridn", "what": re.sub(r"\d+", "N", what)[:160]}, script=small, expected=m, observed=o, engine="gridn")
+        ck.log("property failure (GridN): %s (script of %d ops after shrinking)" % (what, len(small) - 1))
+        return False
+    if d is not None:
+        ck.disagreements += 1
+        seen = ck.__dict__.setdefault("_c13_dis", set())
+        if "gridn" in seen:
+            return None
+        seen.add("gridn")
+        ck.report({"engine": "gridn", "what": "model/implementation disagreement"}, script=script, expected=model, observed=impl,
+                  found_input=False, engine="gridn",
+                  obligation="correspondence gridn: GridN.h vs OmplModel.Model.GridN (first differing line %s)" % d)
+        return False
+    return True
+
+
+def build_gridn(ck):
+    return ck.build_harness("gridn", ["gridn.cpp"], extra=HARNESS_EXTRA)
+
+
 # ---------------------------------------------------------------------------------- the check
 HARNESS_EXTRA = ["-isystem", "/usr/include/eigen3"]
 
@@ -2140,6 +2344,7 @@ def setup(ck):
     build_disc(ck)
     build_kpiece(ck)
     build_lbkpiece(ck)
+    build_gridn(ck)
 
 
 EXH_CFGS = [
@@ -2194,15 +2399,20 @@ def run(ck):
                    "recording sampler / GoalStates / DiscreteMotionValidator wrappers; opened `private` of LBKPIECE1.h; dStart_.rng_, "
                    "dGoal_.rng_ and rng_ reseeded before solve(); termination condition counts loop-head evaluations"]
     ck.assumptions += ["LBKPIECE1: the termination condition does not fire inside pis_.nextGoal(ptc) while goal samples remain"]
+    ck.rule += ("; engine 5 (plain GridN, split protocol): createCell, then add -- or remove + destroyCell WITHOUT add (a tentative "
+                "cell given back, also repeatedly at the same coordinate) --, removals of present cells, dimensions 1-3, bounds, limits; "
+                "non-trivial if at least two created cells are abandoned")
+    ck.assumptions += ["GridN split protocol: one created-but-not-added cell at a time; createCell for an absent coordinate; remove of a "
+                       "cell of the grid only while no cell is pending"]
     ck.lean_build(LEAN_TARGETS)
-    ck.audit(roots=["Drv.Grid", "Drv.Discretization", "Drv.KPIECE1", "Drv.LBKPIECE1"])
+    ck.audit(roots=["Drv.Grid", "Drv.Discretization", "Drv.KPIECE1", "Drv.LBKPIECE1", "Drv.GridN"])
     if ck.tier == "thorough" and ck.lean_ok:
         ck.leanchecker(["OmplModel.Props.C13"])
     hbin = build(ck)
     dbin = build_disc(ck)
     quick = ck.tier == "quick"
     allcorpus = corpus()
-    jobs = [(name, script, "corpus", 1) for name, script in allcorpus if not script[0].startswith("disc")]
+    jobs = [(name, script, "corpus", 1) for name, script in allcorpus if script[0].startswith("grid ")]
     djobs = [(name, script, "corpus") for name, script in allcorpus if script[0].startswith("disc")]
     ndisc, nchurn = (140, 60) if quick else (1500, 600)
     for i in range(ndisc):
@@ -2238,6 +2448,23 @@ def run(ck):
                 if bad >= 3:
                     break
                 if judge(ck, hbin, script, tag, pre, k) is False:
+                    bad += 1
+        # ---- engine 5: plain GridN with the split protocol (createCell / add / remove-without-add / remove)
+        gbin = build_gridn(ck)
+        gjobs = [(name, script, "corpus") for name, script in allcorpus if script[0].startswith("gridn")]
+        for i in range(120 if quick else 1500):
+            r = ck.rng.fork("gridn%d" % i)
+            gjobs.append(("gridn%d" % i, gen_gridn(r, r.choice([6, 20, 60])), "random"))
+        bad = 0
+        for a in range(0, len(gjobs), chunk):
+            if bad >= 3:
+                break
+            part = gjobs[a:a + chunk]
+            pres = list(ex.map(lambda j: ck.run_pair(gbin, GN_DRIVER, j[1]), part))
+            for (name, script, tag), pre in zip(part, pres):
+                if bad >= 3:
+                    break
+                if judge_gridn(ck, gbin, script, tag, pre) is False:
                     bad += 1
         # ---- engine 2: the real Discretization<Motion> against its model
         bad = 0
@@ -2334,6 +2561,26 @@ def replay(ck, data):
             return 1
         print("no failure on the current tree")
         return 0
+    if data["script"][0].startswith("gridn"):
+        hbin = build_gridn(ck)
+        ck.lean_build([GN_DRIVER])
+        script = data["script"]
+        impl, rc, err, model = ck.run_pair(hbin, GN_DRIVER, script)
+        impl = impl or []
+        fail = gridn_oracle(script, impl)
+        d = ck.first_diff(impl, model)
+        for i, ln in enumerate(script[1:]):
+            print("%-22s impl:  %s" % (ln, impl[i] if i < len(impl) else "<missing>"))
+            if i < len(model) and (i >= len(impl) or impl[i] != model[i]):
+                print("%-22s model: %s" % ("", model[i]))
+        if fail:
+            print("PROPERTY FAILS at op %d: %s" % fail)
+            return 1
+        if rc != 0 or d is not None:
+            print("model and implementation disagree at line %s" % d)
+            return 1
+        print("no failure on the current tree")
+        return 0
     if data["script"][0].startswith("disc"):
         hbin = build_disc(ck)
         ck.lean_build([DISC_DRIVER])
@@ -2403,7 +2650,10 @@ MANIFEST = {
             "discretization model; proved for every script: the valid flag is sound, isPathValid is complete for the chain it accepts, "
             "the reported path is real (every edge answered valid by checkMotion or a re-added lastValid state; valid start to valid goal "
             "sample), and the Discretization invariants hold for BOTH trees across removeMotion of whole subtrees and re-adds; that "
-            "removeMotion removes exactly the descendants and frees each once is sampled (oracle on every dump), only its frame part is proved.",
+            "removeMotion removes exactly the descendants and frees each once is sampled (oracle on every dump), only its frame part is proved. "
+            "Plain GridN with the split protocol its API documents (createCell updates the neighbours at once; remove on a never-added "
+            "cell undoes it) is modelled separately (GridB overrides these functions): gridN_counts_exact for every history incl. "
+            "create->remove->destroy without add, lock-step of the real GridN<int>, brute-force neighbour-count oracle.",
     "note": "Trusted: Lean kernel, the three standard axioms, the hand-written model outside the scripts the correspondence explored, "
             "the harness, the reused C11 heap model. Histories follow the user protocol of KPIECE's Discretization; tops-are-minima "
             "is checked by the oracle and the correspondence (the heap-order theorems belong to C11).",
